@@ -11,7 +11,10 @@ RULE = ("K: constraint systems from a structured generator (1-8 objects incl. th
         "(single- and multi-axis, real and index-space margins/offsets, anchors -1/0/1/+-0.5, coordinates with jitter and exact "
         "ties), then perturbed: redundant or conflicting extra coordinates / position constraints / sizes, dropped constraints, "
         "degenerate numbers (zero, negative, out-of-volume, oversize), malformed systems (duplicate names, two volumes, unknown "
-        "names), index-space offsets on stretched grids, tiny max_iter). Each system is solved by "
+        "names), index-space offsets on stretched grids, tiny max_iter); plus a fixed+random 'staggered' family: 2- and 3-axis "
+        "PositionConstraints whose axes become resolvable in different passes (size from SizeConstraint chains of depth 1-3 on "
+        "objects positioned later, constraints listed in reverse dependency order, dependents left to extension-to-infinity). "
+        "Each system is solved by "
         "fdtdx.resolve_object_constraints in its own order and in permuted object/constraint orders and by the compiled Lean "
         "model; compared exactly: raised / flagged object set / every slice bound (also of failed placements). place_objects is "
         "run on a subset (raises iff the model fails; placed grid_slice_tuple = model slices). Independent oracle on every "
@@ -31,13 +34,18 @@ def property_fails(sys, oo=None, co=None):
     return ("placement succeeded (" + json.dumps(out["slices"]) + ") but " + "; ".join(v[:3])) if v else None
 
 
-def cases_for(ctx, n):
+def cases_for(ctx, n, rng):
     out = [(pc.witness_early_exit(), {"family": "witness"}), (pc.witness_real_position_skip(), {"family": "witness"}),
            (pc.witness_volume_bound(), {"family": "witness"})]
     for s in pc.small_systems()[:: ctx.scale(3, 1)]:
         out.append((s, {"family": "small"}))
+    # multi-axis position constraints whose axes resolve in different passes (chains of size constraints on objects
+    # positioned later), listed in the adversarial (reverse dependency) order, dependents left to the extension step
+    for s in pc.staggered_systems(rng, n_random=ctx.scale(6, 40)):
+        out.append((s, {"family": "staggered"}))
+    n += len(out)
     while len(out) < n:
-        s, tags = pc.gen_system(ctx.rng, big=ctx.thorough and ctx.rng.chance(0.3))
+        s, tags = pc.gen_system(rng, big=ctx.thorough and rng.chance(0.3))
         tags["family"] = "generated"
         out.append((s, tags))
     return out
@@ -64,12 +72,15 @@ def compare(ctx, jobs, op="solve"):
 
 def run(ctx):
     n = ctx.scale(110, 1500)
+    # consecutive VERIF_SEEDs give SplitMix streams that are shifts of each other (they re-synchronise after a few
+    # variable-length draws); fork once so that every seed really generates different systems
+    rng = ctx.rng.fork()
     jobs, meta = [], []
-    for s, tags in cases_for(ctx, n):
+    for s, tags in cases_for(ctx, n, rng):
         nc, no = len(s["constraints"]), len(s["objects"])
         ords = [(list(range(no)), list(range(nc)))]
-        ords.append((ctx.rng.shuffle(range(no)), ctx.rng.shuffle(range(nc))))
-        if tags["family"] != "generated" or ctx.rng.chance(0.3):
+        ords.append((rng.shuffle(range(no)), rng.shuffle(range(nc))))
+        if tags["family"] != "generated" or rng.chance(0.3):
             ords.append((list(range(no))[::-1], list(range(nc))[::-1]))
         for oo, co in ords:
             out = pc.run_impl(s, oo, co)
@@ -106,6 +117,8 @@ def run(ctx):
             continue
         if out["kind"] == "raised" or not (pc.ok(out) or k % 3 == 0):
             continue
+        if s.get("max_iter", 1000) != 1000:
+            continue                                      # place_objects always uses the default max_iter
         k += 1
         po = pc.run_place_objects(s, oo, co)
         ctx.case(nontrivial=("place_objects", digest(s, oo, co)), op="place_objects", outcome=po[0])
@@ -131,7 +144,7 @@ def _report(ctx, sys, oo, co):
     m = pc.materialize(sys, oo, co)
     small, d = pc.shrink(m, lambda c: property_fails(c))
     if small is not None:
-        ctx.violation({"sys": small, "obj_order": None, "con_order": None}, d)
+        ctx.violation({"sys": pc.json_copy(small), "obj_order": None, "con_order": None}, d)
     else:
         ctx.violation({"sys": pc.strip(sys), "obj_order": oo, "con_order": co}, property_fails(sys, oo, co))
 
@@ -141,8 +154,9 @@ def search(ctx, hints):
     for h in hints[:60]:
         if isinstance(h, dict) and "sys" in h:
             ctx.impl_property_evals += 1
-            if property_fails(h["sys"], h.get("obj_order"), h.get("con_order")):
-                _report(ctx, h["sys"], h.get("obj_order"), h.get("con_order"))
+            hs = pc.json_copy(h["sys"])          # a copy: running it caches built objects on the dict
+            if property_fails(hs, h.get("obj_order"), h.get("con_order")):
+                _report(ctx, hs, h.get("obj_order"), h.get("con_order"))
                 return
     # smallest systems first: the systematic two-object family under every constraint order
     for s in pc.small_systems():
